@@ -218,7 +218,11 @@ impl<B: Body> PreparedRequest<B> {
     pub fn send(&mut self) -> Result<Response> {
         let mut url = self.url.clone();
 
-        let deadline = self.base_settings.timeout.map(|timeout| Instant::now() + timeout);
+        // A timeout too large for the deadline to be representable never expires.
+        let deadline = self
+            .base_settings
+            .timeout
+            .and_then(|timeout| Instant::now().checked_add(timeout));
         let mut redirections = 0;
 
         loop {
